@@ -290,7 +290,8 @@ def plan(tier, seed):
     L = 3 if tier == "quick" else 3
     for pi, pool in enumerate(pools):
         evs = _events(pool)
-        for si in range(len(SOURCES) if tier != "quick" else 1):
+        # (thorough: every pool on the first source, the first two pools also on the second)
+        for si in range(1 if tier == "quick" else (len(SOURCES) if pi < 2 else 1)):
             for e0 in range(len(evs)):
                 shards.append({"what": "history", "pool": pi, "src": si, "first": e0, "L": L, "tier": tier})
     if tier != "quick":
